@@ -416,6 +416,17 @@ func muxPoint(c *caseCtx, k *kit, m muxG, ops []*node, p []int, truth []bool, x 
 			break
 		}
 	}
+	// the returned slice belongs to the caller: later queries (here: far away, and at the mirrored
+	// point) must not change it
+	kept := append([]bool{}, all...)
+	m.All(vec{1e6, -1e6, 0})
+	m.All(vec{-x[0], -x[1], -x[2]})
+	for j := range kept {
+		if all[j] != kept[j] {
+			c.Violation(api+"AllContains/result-kept-across-later-calls", fmt.Sprintf("the slice returned for one point changed at [%d] after AllContains was called for other points", j), wit(p, all, kept))
+			break
+		}
+	}
 	seen := make([]int, n)
 	bad := false
 	cnt := m.Iter(x, func(i int) {
